@@ -253,6 +253,27 @@ def runHist {α : Type} (desc : FieldDesc) (F : FOps α) (uSpec bSpec : String) 
       let (st, lastQ) := stq
       let toks := (line.trimAscii.toString.splitOn " ").filter (· != "")
       if line.startsWith "tcheck@" then ((st, lastQ), "ok 0 of " ++ toString (env.fld (atIdx line)).card)
+      else if line.startsWith "ireduce " then
+        -- `ireduce iN qK`: `id.Reduce(f)` — `IsGroebner()` is asked first (and cached in the ideal object); when the
+        -- answer is no, a Groebner basis is computed on the side; f becomes its remainder modulo the basis
+        let n := regNum (toks.getD 1 ""); let k := regNum (toks.getD 2 "")
+        let id := iGet st n; let rf := bGet st k
+        let o := bord env 0
+        match id.isGroebnerQ F o with
+        | none => ((st, lastQ), "fuel-exhausted")
+        | some (id1, isG) =>
+          let st1 := { st with ids := St.setL st.ids n id1 }
+          match (if isG then some id1 else id1.groebnerBasis F o) with
+          | none => ((st1, lastQ), "fuel-exhausted")
+          | some gb =>
+            if rf.err.isErr then ((st1, lastQ), "err " ++ toString rf.err)
+            else if rf.home != 0 then ((st1, lastQ), "err ArithmeticIncompat")
+            else match BPoly.rem F o BPoly.divFuel rf.val gb.gens with
+              | .error e => ((st1, lastQ), "err " ++ toString e)
+              | .ok none => ((st1, lastQ), "fuel-exhausted")
+              | .ok (some v) =>
+                let r : BReg α := { rf with val := v }
+                (({ st1 with bs := St.setL st1.bs k r }, lastQ), "ok " ++ showB env r)
       else if (toks.headD "").endsWith "=spoly" then
         -- `qK=spoly qA qB`: the exported `bivariate.SPolynomial` (operand errors and rings as every binary operation;
         -- a zero operand is refused with InputValue since "fix: bivariate.SPolynomial refuses the zero polynomial")
